@@ -211,6 +211,15 @@ var witnesses = []witness{
 	// (h) java/jar
 	{"jar-member-claims-2^33", lyingJar(1 << 33)},
 	{"jar-member-claims-2^62", lyingJar(1 << 62)},
+	// the manifest was read whole whatever it inflates to (e7cfb6f4)
+	{"jar-manifest-deflate-64MiB", func() []byte {
+		body := append(make([]byte, 64<<20), '\r', '\n')
+		z := buildZip([]zipMember{
+			{name: "META-INF/", method: zip.Store},
+			{name: "META-INF/MANIFEST.MF", body: body, method: zip.Deflate},
+		}, "")
+		return tarOf(lyFile{name: "app/a.jar", body: z})
+	}},
 	{"jar-nested-300", func() []byte { return tarOf(lyFile{name: "app/a.jar", body: nestedJar(300)}) }},
 	// (i) rpm databases
 	{"bdb-chain-to-non-overflow-page", rpmLayer("var/lib/rpm/Packages", func() []byte { return bdbWithChain(2, 3) })},
